@@ -254,6 +254,8 @@ class AbstractPriorModel(AbstractModel):
         constants removed.
         """
         without_attributes = copy.copy(self)
+        # the (shallow) copy is a new model under construction even if self is frozen
+        without_attributes._is_frozen = False
         for key in self.__dict__:
             if not (key.startswith("_") or key in ("cls", "id")):
                 delattr(without_attributes, key)
@@ -326,6 +328,7 @@ class AbstractPriorModel(AbstractModel):
         A copy of this model with a subset of attributes
         """
         without_paths = copy.deepcopy(self)
+        without_paths.unfreeze()
         for name, subtree in tree.items():
             # noinspection PyProtectedMember
             if len(subtree) == 0:
